@@ -380,6 +380,7 @@ func streamC36(h *H) {
 				h.Case("kill")
 				h.Rec("setup", typ, Itoa(size), B(premk), prevKind, n, Itoa(k))
 				h.Rec("data", Itoa(size), hex.EncodeToString(sum[:8]))
+				h.Rec("name", HexS(name))
 				var evs []string
 				for _, c := range done {
 					if e := c36Event(c, "-tmp-", name); e != "" {
